@@ -443,6 +443,11 @@ func crashChildMain(args []string) int {
 			return 3
 		}
 		m.line(fmt.Sprintf("E %d %s", n, out))
+		if f[0] == "open" && out != "ok" {
+			// the session cannot go on; the parent reports the failed (re)open, this is not a harness problem
+			fmt.Fprintf(os.Stderr, "crashchild: op %d: open failed (%s), session ends here\n", n, out)
+			return 0
+		}
 		n++
 	}
 	return 0
